@@ -115,7 +115,7 @@ pub fn run(ctx: &mut Ctx) {
     let n = if ctx.thorough { 100_000 } else { 4_000 };
     for i in 0..n {
         // fences at arbitrary line positions
-        let mut lines: Vec<String> = (0..1 + rng.below(6)).map(|_| match rng.below(4) { 0 => "---".to_string(), 1 => crate::gen::word(&mut rng), 2 => String::new(), _ => crate::gen::step(&mut rng) }).collect();
+        let mut lines: Vec<String> = (0..1 + rng.below(6)).map(|_| match rng.below(5) { 0 => "---".to_string(), 1 => crate::gen::word(&mut rng), 2 => String::new(), 3 => rng.pick_str(&["---- x", "---- Title ----", "--- a", "----", "---x", " ---", "--- ", "-- -", "---\t"]).to_string(), _ => crate::gen::step(&mut rng) }).collect();
         if rng.chance(1, 3) { lines.insert(0, String::new()); }
         one(ctx, &lines.join("\n"), crate::gen::ext_pattern(i % 256));
     }
